@@ -488,7 +488,7 @@ def gen_stream(rng, pool, allow_none=True):
 
 def gen_pollution(rng, pool):
     kind = rng.choice(["np_global_draws", "np_global_draws", "np_global_reseed", "py_random_reseed", "ctor_with_seed_data",
-                       "ctor_with_seed_data", "reset_seed", "foreign_draws_on_shared_generator", "foreign_draws_on_shared_generator"])
+                       "ctor_with_seed_data", "reset_seed", "reset_seed_noarg", "foreign_draws_on_shared_generator", "foreign_draws_on_shared_generator"])
     st = {"op": "pollute", "kind": kind}
     if kind == "np_global_draws":
         st["n"] = rng.choice([1, 2, 3, 10, 624, 1000])
@@ -501,6 +501,8 @@ def gen_pollution(rng, pool):
     elif kind == "reset_seed":
         st["t"] = rng.choice(["qst", "povmt", "qpt", "qmpt", "exp"])
         st["s"] = rng.randrange(1, 6)
+    elif kind == "reset_seed_noarg":
+        st["t"] = rng.choice(["qst", "povmt", "qpt", "qmpt"])
     else:
         st["i"] = rng.randrange(len(pool["gens"]))
         st["n"] = rng.choice([1, 2, 5, 100])
@@ -1069,7 +1071,20 @@ class Run:
                                 {"op": "pollute", "kind": "ctor_with_seed_data", "which": st["which"]})
             self.stats["probes"]["_armed_ctor"] = 1
             self.stats["probes"]["_armed_reseed"] = 1
+        elif kind == "reset_seed_noarg":
+            # reset_seed() without an argument re-applies the object's current data seed (the one given last)
+            t = st["t"]
+            cur = self.obj_seed.get(t)
+            before = _np_state_digest()
+            self.world.tomo[t].reset_seed()
+            self.bump("oracle_checks", "R4_object_seed")
+            want = _np_state_digest(np.random.RandomState(cur).get_state()) if cur is not None else before
+            if _np_state_digest() != want:
+                raise Violation("R4_object_seed", f"reset_seed() on {t} whose current data seed is {cur}: the global random state is not the state seeded with it",
+                                {"t": t, "current_seed": cur}, {"op": "pollute", "kind": "reset_seed_noarg"})
+            self.stats["probes"]["_armed_reseed"] = 1
         elif kind == "reset_seed":
+            self.obj_seed[st["t"]] = st["s"]
             if st["t"] == "exp":
                 self.world.exp.reset_seed_data(st["s"])
             else:
@@ -1177,6 +1192,8 @@ class Run:
         np.random.seed(self.record["seed"] % (2 ** 32))  # "OS entropy" of this simulated process
         pyrandom.seed(self.record["seed"])
         self.world = World(self.pool)
+        sd = self.pool["tomo"].get("seed_data")
+        self.obj_seed = {"qst": sd, "povmt": sd, "qpt": sd, "qmpt": sd, "exp": self.pool["experiment"].get("seed_data")}
         self.gens = [np.random.Generator(np.random.MT19937(s)) for s in self.pool["gens"]]
         self.shadows = [copy.deepcopy(g) for g in self.gens]
         self.gen_users = {}
